@@ -446,9 +446,167 @@ example (env : Env Nat) : ∀ p ∈ [exP1, exP2], Covered env p := by
 
 /-! ### what the writer emits is read back (record level) -/
 
+/-- the two laws of C09 about the executable double arithmetic at `v` (`Props/C09.lean: FloatLaws`, restated here so that
+    this file does not depend on C09's property file): `%.15G` of `v` has the shape of a decimal numeral, and the
+    decimal it prints converts back to `v` -/
+def RealStable {F} (ops : FloatOps F) (v : F) : Prop :=
+  G15Shape (ops.fmtG15 v) ∧ ∃ dec, parseFloatText (ops.fmtG15 v) = some dec ∧ ops.ofDecimal dec = some v
+
+theorem writeReal_token {F} (ops : FloatOps F) (v : F) (h : RealStable ops v) :
+    isReal (writeReal ops v) = true ∧ ∃ dec, denoteReal (writeReal ops v) = some dec ∧ ops.ofDecimal dec = some v := by
+  obtain ⟨hshape, dec, hp, hv⟩ := h
+  obtain ⟨sg, ip, fp, ex, hw, hsg, hip1, hip, hfp, hex, hparse⟩ := writeReal_shape ops v hshape
+  refine ⟨by rw [hw]; exact isReal_realText sg ip fp ex hsg hip1 hip hfp hex, dec, ?_, hv⟩
+  unfold denoteReal
+  rw [hw, parse_realText sg ip fp 69 ex hsg hip1 hip hfp (Or.inl rfl) hex, ← hparse, hp]
+
+/-- an entity keyword as the writer emits it: upper-case letters, digits and `_`, starting with a letter -/
+def KeywordName (n : String) : Prop :=
+  ∃ n0 ns, stringToBytes n = n0 :: ns ∧ isUpper n0 = true ∧ ns.all (fun c => isUpper c || isDigit c || c == 95) = true ∧
+    bytesToString (n0 :: ns) = n
+
+theorem upper_keeps {c : Byte} (h : (isUpper c || isDigit c || c == 95) = true) : toUpper c = c := by
+  have : isLower c = false := by simp [isUpper, isDigit, isLower] at *; bomega
+  simp [toUpper, this]
+
+theorem upper_kwc {c : Byte} (h : (isUpper c || isDigit c || c == 95) = true) : kwc c = true := by
+  simp [kwc, isAlnum, isAlpha, isUpper, isLower, isDigit] at *; bomega
+
+theorem keyword_bytes {n : String} (h : KeywordName n) :
+    ∃ n0 ns, stringToBytes n = n0 :: ns ∧ isAlpha n0 = true ∧ ns.all kwc = true ∧ bytesToString (upperBytes (n0 :: ns)) = n := by
+  obtain ⟨n0, ns, hnb, hn0, hns, hback⟩ := h
+  refine ⟨n0, ns, hnb, by simp [isAlpha, hn0], all_imp (fun c hc => upper_kwc hc) _ hns, ?_⟩
+  have : upperBytes (n0 :: ns) = n0 :: ns := by
+    unfold upperBytes
+    conv => rhs; rw [← List.map_id (n0 :: ns)]
+    apply List.map_congr_left
+    intro c hc
+    rcases List.mem_cons.mp hc with rfl | hc
+    · exact upper_keeps (by simp [hn0])
+    · exact upper_keeps (List.all_eq_true.mp hns c hc)
+  rw [this, hback]
+
+/-- the value inside a typed select as it sits in memory, with the text `writeAtomCore` gives it -/
+inductive StorableLeaf {F} (env : Env F) (m : SelMember) : Atom F → List Byte → Prop where
+  | int (hm : m.ty = .integer) (i : Int) (hlo : IStream.longMin ≤ i) (hhi : i < IStream.longMax) : StorableLeaf env m (.int i) (showInt i)
+  | real (hm : m.ty = .real ∨ m.ty = .number) (v : F) (hst : RealStable env.ops v) (hnn : env.ops.isRealNull v = false)
+      (hbuf : env.lex.realBuf = 0 ∨ (writeReal env.ops v).length < env.lex.realBuf) : StorableLeaf env m (.real v) (writeReal env.ops v)
+  | str (hm : m.ty = .string) (b : List Byte) (hb : StringBody b) : StorableLeaf env m (.str (39 :: (b ++ [39]))) (39 :: (b ++ [39]))
+  | bin (hm : m.ty = .binary) (hex : List Byte) (hne : hex ≠ []) (hhex : hex.all isXDigit = true) :
+      StorableLeaf env m (.bin hex) (34 :: (hex ++ [34]))
+  | enum (het : EnumTy m.ty) (i : Nat) (name : List Byte) (hget : (enumKindOf m.ty).table[i]? = some name)
+      (hne : name ≠ []) (hname : name.all pw = true)
+      (hfind : findName (enumKindOf m.ty).table (name.map toUpper) = some i) (hset : (enumKindOf m.ty).isUnsetIdx i = false) :
+      StorableLeaf env m (.enum i) (46 :: (name ++ [46]))
+
+theorem storableLeaf_spec {F} (env : Env F) (m : SelMember) (a : Atom F) (tok : List Byte) (h : StorableLeaf env m a tok) :
+    writeAtomCore env.ops m.ty a = tok ∧ LeafCovered env m tok a := by
+  cases h with
+  | int hm i hlo hhi =>
+    have hs := showInt_spec i
+    refine ⟨by simp [writeAtomCore], ?_⟩
+    have hc := LeafCovered.integer (env := env) (m := m) hm (showInt i) hs.1 (by rw [hs.2]; exact hlo) (by rw [hs.2]; exact hhi)
+    rw [hs.2] at hc; exact hc
+  | real hm v hst hnn hbuf =>
+    obtain ⟨hreal, dec, hden, hv⟩ := writeReal_token env.ops v hst
+    exact ⟨by simp [writeAtomCore], LeafCovered.real hm _ dec v hreal hden hv hnn hbuf⟩
+  | str hm b hb => exact ⟨by simp [writeAtomCore], LeafCovered.string hm b hb⟩
+  | bin hm hex hne hhex =>
+    have he : hex.isEmpty = false := by cases hex <;> simp_all
+    exact ⟨by simp [writeAtomCore, writeBinary, he], LeafCovered.binary hm hex hne hhex⟩
+  | enum het i name hget hne hname hfind hset =>
+    refine ⟨?_, LeafCovered.enum het name i hne hname hfind hset⟩
+    rcases het with h | h | ⟨items, h⟩ <;> rw [h] at hget <;> simp only [enumKindOf, EnumKind.table] at hget <;>
+      simp [writeAtomCore, h, enumTable, EnumKind.table, List.getD, hget]
+
+/-- aggregate elements as they sit in memory (the scalar kinds of `Storable`, never unset) -/
+inductive StorableElem {F} (env : Env F) : ElemTy → Elem F → Prop where
+  | int (i : Int) (hlo : IStream.longMin ≤ i) (hhi : i < IStream.longMax) : StorableElem env .integer (.atom (.int i))
+  | real (v : F) (hst : RealStable env.ops v) (hnn : env.ops.isRealNull v = false)
+      (hbuf : env.lex.realBuf = 0 ∨ (writeReal env.ops v).length < env.lex.realBuf) : StorableElem env .real (.atom (.real v))
+  | str (b : List Byte) (hb : StringBody b) : StorableElem env .string (.atom (.str (39 :: (b ++ [39]))))
+  | bin (hex : List Byte) (hne : hex ≠ []) (hhex : hex.all isXDigit = true) : StorableElem env .binary (.atom (.bin hex))
+  | enum (ty : ElemTy) (het : EnumTy ty) (i : Nat) (name : List Byte) (hget : (enumKindOf ty).table[i]? = some name)
+      (hne : name ≠ []) (hname : name.all pw = true)
+      (hfind : findName (enumKindOf ty).table (name.map toUpper) = some i) (hset : (enumKindOf ty).isUnsetIdx i = false) :
+      StorableElem env ty (.atom (.enum i))
+  | ref (tg : String) (id : Int) (h0 : 0 ≤ id) (hhi : id ≤ IStream.intMax) (hfound : refLookup env.lookup tg id = .found) :
+      StorableElem env (.entity tg) (.atom (.ref id))
+
+/-- the element as the node writer emits it (no layout) -/
+def elemOf {F} (ops : FloatOps F) (cfg : RWCfg) (d : Dict) (ety : ElemTy) (e : Elem F) : ElemG F :=
+  { tok := nodeText ops cfg d ety e, before := [], after := [], v := e }
+
+theorem showInt_nonneg' (i : Int) (h0 : 0 ≤ i) :
+    ∃ ds, showInt i = ds ∧ ds ≠ [] ∧ ds.all isDigit = true ∧ ((digitsVal ds 0 : Nat) : Int) = i := by
+  obtain ⟨h1, h2, h3⟩ := toDigits_spec i.natAbs
+  refine ⟨_, rfl, ?_, ?_, ?_⟩ <;> unfold showInt <;> simp only [show ¬ i < 0 from by omega, if_false]
+  · exact h3
+  · exact h2
+  · rw [h1]; omega
+
+theorem storableElem_covered {F} (env : Env F) (cfg : RWCfg) (d : Dict) (ety : ElemTy) (e : Elem F) (h : StorableElem env ety e) :
+    ElemCovered env ety (elemOf env.ops cfg d ety e) := by
+  have nb : Seps ([] : List Byte) := Seps.blanks [] (by simp)
+  cases h with
+  | int i hlo hhi =>
+    have hs := showInt_spec i
+    have ht : nodeText env.ops cfg d .integer (.atom (.int i) : Elem F) = showInt i := by simp [nodeText, nodeWrite, writeAtomCore]
+    unfold elemOf; rw [ht]
+    have hc := ElemCovered.integer (env := env) (showInt i) hs.1 (by rw [hs.2]; exact hlo) (by rw [hs.2]; exact hhi) [] [] nb nb
+    rw [hs.2] at hc; exact hc
+  | real v hst hnn hbuf =>
+    obtain ⟨hreal, dec, hden, hv⟩ := writeReal_token env.ops v hst
+    have ht : nodeText env.ops cfg d .real (.atom (.real v) : Elem F) = writeReal env.ops v := by simp [nodeText, nodeWrite, writeAtomCore]
+    unfold elemOf; rw [ht]
+    exact ElemCovered.real _ dec v hreal hden hv hnn hbuf [] [] nb nb
+  | str b hb =>
+    have ht : nodeText env.ops cfg d .string (.atom (.str (39 :: (b ++ [39]))) : Elem F) = 39 :: (b ++ [39]) := by simp [nodeText, nodeWrite]
+    unfold elemOf; rw [ht]
+    exact ElemCovered.string b hb [] [] nb nb
+  | bin hex hne hhex =>
+    have he : hex.isEmpty = false := by cases hex <;> simp_all
+    have ht : nodeText env.ops cfg d .binary (.atom (.bin hex) : Elem F) = 34 :: (hex ++ [34]) := by
+      simp [nodeText, nodeWrite, writeAtomCore, writeBinary, he]
+    unfold elemOf; rw [ht]
+    exact ElemCovered.binary hex hne hhex [] [] nb nb
+  | enum ty het i name hget hne hname hfind hset =>
+    have htab : enumTable ety = (enumKindOf ety).table := by
+      rcases het with rfl | rfl | ⟨items, rfl⟩ <;> rfl
+    have ht : nodeText env.ops cfg d ety (.atom (.enum i) : Elem F) = 46 :: (name ++ [46]) := by
+      rcases het with rfl | rfl | ⟨items, rfl⟩ <;> simp only [enumKindOf, EnumKind.table] at hget <;>
+        simp [nodeText, nodeWrite, writeAtomCore, enumTable, EnumKind.table, List.getD, hget]
+    unfold elemOf; rw [ht]
+    exact ElemCovered.enum ety het name i hne hname hfind hset [] [] nb nb
+  | ref tg id h0 hhi hfound =>
+    obtain ⟨ds, hds, hne, hdig, hval⟩ := showInt_nonneg' id h0
+    have ht : nodeText env.ops cfg d (.entity tg) (.atom (.ref id) : Elem F) = 35 :: ds := by
+      simp [nodeText, nodeWrite, writeAtomCore, hds]
+    unfold elemOf; rw [ht]
+    have hc := ElemCovered.ref (env := env) tg ds hne hdig (by rw [hval]; exact hhi) (by rw [hval]; exact hfound) [] [] nb nb
+    rw [hval] at hc; exact hc
+
+/-- elements separated by commas between parentheses is the aggregate text without layout -/
+theorem aggrTextG_plain {F} (ops : FloatOps F) (cfg : RWCfg) (d : Dict) (ety : ElemTy) (es : List (Elem F)) :
+    [40] ++ commaSep (es.map (nodeText ops cfg d ety)) ++ [41] = aggrTextG (es.map (elemOf ops cfg d ety)) [] := by
+  cases es with
+  | nil => rfl
+  | cons e t =>
+    simp only [aggrTextG, List.map_cons, List.cons_append, List.nil_append]
+    congr 1
+    induction t generalizing e with
+    | nil => simp [commaSep, renderElemsG, elemOf]
+    | cons f u ih =>
+      have := ih f
+      simp only [List.map_cons, commaSep, renderElemsG] at this ⊢
+      simp only [elemOf, List.nil_append, List.append_assoc, List.cons_append] at this ⊢
+      rw [← this]
+
 /-- attribute/value pairs of the covered kinds as they sit in memory: unset for an OPTIONAL attribute, derived, an
     INTEGER within `long` minus the in-band null, a STRING in its encoded form `'…'` (what stepcode keeps), a non-empty
-    BINARY, a reference to an instance the manager holds and whose type conforms -/
+    BINARY, a reference to an instance the manager holds and whose type conforms, a REAL / NUMBER at which the double
+    arithmetic is stable (`RealStable`) and which is not the in-band null, an ENUMERATION / BOOLEAN / LOGICAL item whose
+    name is found at its own index in the table (item names distinct, upper case) -/
 inductive Storable {F} (env : Env F) : AttrD → MVal F → Prop where
   | null (a : AttrD) (hopt : a.optional = true) (hder : a.derived = false) (hred : a.redefining = false) : Storable env a (nullOf a)
   | derived (a : AttrD) (hder : a.derived = true) (hred : a.redefining = false) : Storable env a .derived
@@ -461,6 +619,25 @@ inductive Storable {F} (env : Env F) : AttrD → MVal F → Prop where
   | ref (a : AttrD) (tg : String) (hty : a.ty = .one (.entity tg)) (hder : a.derived = false) (hred : a.redefining = false)
       (id : Int) (h0 : 0 ≤ id) (hhi : id ≤ IStream.intMax) (hfound : refLookup env.lookup tg id = .found) :
       Storable env a (.one (.atom (.ref id)))
+  | real (a : AttrD) (hty : a.ty = .one .real ∨ a.ty = .one .number) (hder : a.derived = false) (hred : a.redefining = false)
+      (v : F) (hst : RealStable env.ops v) (hnn : env.ops.isRealNull v = false)
+      (hbuf : env.lex.realBuf = 0 ∨ (writeReal env.ops v).length < env.lex.realBuf) : Storable env a (.one (.atom (.real v)))
+  | enum (a : AttrD) (ty : ElemTy) (hty : a.ty = .one ty) (het : EnumTy ty) (hder : a.derived = false) (hred : a.redefining = false)
+      (i : Nat) (name : List Byte) (hget : (enumKindOf ty).table[i]? = some name) (hne : name ≠ []) (hname : name.all pw = true)
+      (hfind : findName (enumKindOf ty).table (name.map toUpper) = some i) (hset : (enumKindOf ty).isUnsetIdx i = false) :
+      Storable env a (.one (.atom (.enum i)))
+  | aggr (a : AttrD) (ety : ElemTy) (hty : a.ty = .aggr ety) (hder : a.derived = false) (hred : a.redefining = false)
+      (es : List (Elem F)) (hes : ∀ e ∈ es, StorableElem env ety e) : Storable env a (.aggr es)
+  | selTyped (a : AttrD) (n : String) (hty : a.ty = .one (.select n)) (hder : a.derived = false) (hred : a.redefining = false)
+      (sd : SelectD) (hsd : env.dict.select? n = some sd) (m : SelMember)
+      (hmem : sd.members.find? (·.name == m.name) = some m) (hne : m.ty.isEntity = false)
+      (hfind : sd.members.find? (fun x => x.name == m.name && !x.ty.isEntity) = some m) (hkw : KeywordName m.name)
+      (av : Atom F) (tok : List Byte) (hleaf : StorableLeaf env m av tok) : Storable env a (.one (.sel m.name av))
+  | selRef (a : AttrD) (n : String) (hty : a.ty = .one (.select n)) (hder : a.derived = false) (hred : a.redefining = false)
+      (sd : SelectD) (hsd : env.dict.select? n = some sd) (m : SelMember)
+      (hmem : sd.members.find? (·.name == m.name) = some m) (tg : String) (hent : m.ty = .entity tg)
+      (id : Int) (h0 : 0 ≤ id) (hhi : id ≤ IStream.intMax) (hasg : assignEntity env sd id = some m) :
+      Storable env a (.one (.sel m.name (.ref id)))
 
 /-- the parameter a stored value is written as (no layout) -/
 def paramOf {F} (ops : FloatOps F) (cfg : RWCfg) (d : Dict) (a : AttrD) (v : MVal F) : Param F :=
@@ -474,11 +651,13 @@ theorem showInt_nonneg (i : Int) (h0 : 0 ≤ i) :
   · exact h2
   · rw [h1]; omega
 
-theorem storable_covered {F} (env : Env F) (ops : FloatOps F) (cfg : RWCfg) (d : Dict) (a : AttrD) (v : MVal F) (h : Storable env a v) :
-    Covered env (paramOf ops cfg d a v) := by
+theorem storable_covered {F} (env : Env F) (cfg : RWCfg) (hsa : cfg.stringNodeAppends = false) (d : Dict) (hd : d = env.dict)
+    (a : AttrD) (v : MVal F) (h : Storable env a v) :
+    Covered env (paramOf env.ops cfg d a v) := by
+  subst hd
   cases h with
   | null hopt hder hred =>
-    have : writeAttr ops cfg d a (nullOf a : MVal F) = [36] := by
+    have : writeAttr env.ops cfg env.dict a (nullOf a : MVal F) = [36] := by
       unfold nullOf; rw [hder]; simp only [Bool.false_eq_true, if_false]
       cases hty : a.ty <;> simp [writeAttr, writeElemAttr, hty]
     unfold paramOf; rw [this]
@@ -487,7 +666,7 @@ theorem storable_covered {F} (env : Env F) (ops : FloatOps F) (cfg : RWCfg) (d :
     exact Covered.star a hder hred [] [] (Seps.blanks [] (by simp)) (Seps.blanks [] (by simp))
   | int hty hder hred i hlo hhi =>
     have hs := showInt_spec i
-    have : writeAttr ops cfg d a (.one (.atom (.int i)) : MVal F) = showInt i := by
+    have : writeAttr env.ops cfg env.dict a (.one (.atom (.int i)) : MVal F) = showInt i := by
       simp [writeAttr, hty, writeElemAttr, writeAtomCore]
     unfold paramOf; rw [this]
     have hc := Covered.integer (env := env) a hty hder hred (showInt i) hs.1 (by rw [hs.2]; exact hlo) (by rw [hs.2]; exact hhi)
@@ -495,19 +674,68 @@ theorem storable_covered {F} (env : Env F) (ops : FloatOps F) (cfg : RWCfg) (d :
     rw [hs.2] at hc
     exact hc
   | str hty hder hred b hb =>
-    have : writeAttr ops cfg d a (.one (.atom (.str (39 :: (b ++ [39])))) : MVal F) = 39 :: (b ++ [39]) := by
+    have : writeAttr env.ops cfg env.dict a (.one (.atom (.str (39 :: (b ++ [39])))) : MVal F) = 39 :: (b ++ [39]) := by
       simp [writeAttr, hty, writeElemAttr, writeAtomCore]
     unfold paramOf; rw [this]
     exact Covered.string a hty hder hred b hb [] [] (Seps.blanks [] (by simp)) (Seps.blanks [] (by simp))
   | bin hty hder hred hex hne hhex =>
     have he : hex.isEmpty = false := by cases hex <;> simp_all
-    have : writeAttr ops cfg d a (.one (.atom (.bin hex)) : MVal F) = 34 :: (hex ++ [34]) := by
+    have : writeAttr env.ops cfg env.dict a (.one (.atom (.bin hex)) : MVal F) = 34 :: (hex ++ [34]) := by
       simp [writeAttr, hty, writeElemAttr, writeAtomCore, writeBinary, he]
     unfold paramOf; rw [this]
     exact Covered.binary a hty hder hred hex hne hhex [] [] (Seps.blanks [] (by simp)) (Seps.blanks [] (by simp))
+  | real hty hder hred v hst hnn hbuf =>
+    obtain ⟨hreal, dec, hden, hv⟩ := writeReal_token env.ops v hst
+    rcases hty with hty | hty
+    · have : writeAttr env.ops cfg env.dict a (.one (.atom (.real v)) : MVal F) = writeReal env.ops v := by
+        simp [writeAttr, hty, writeElemAttr, writeAtomCore]
+      unfold paramOf; rw [this]
+      exact Covered.real a hty hder hred _ dec v hreal hden hv hnn hbuf [] [] (Seps.blanks [] (by simp)) (Seps.blanks [] (by simp))
+    · have : writeAttr env.ops cfg env.dict a (.one (.atom (.real v)) : MVal F) = writeReal env.ops v := by
+        simp [writeAttr, hty, writeElemAttr, writeAtomCore]
+      unfold paramOf; rw [this]
+      exact Covered.number a hty hder hred _ dec v (Or.inl hreal) hden hv hnn [] [] (Seps.blanks [] (by simp)) (Seps.blanks [] (by simp))
+  | enum ty hty het hder hred i name hget hne hname hfind hset =>
+    have htab : enumTable ty = (enumKindOf ty).table := by
+      rcases het with rfl | rfl | ⟨items, rfl⟩ <;> rfl
+    have : writeAttr env.ops cfg env.dict a (.one (.atom (.enum i)) : MVal F) = 46 :: (name ++ [46]) := by
+      simp [writeAttr, hty, writeElemAttr, writeAtomCore, htab, List.getD, hget]
+    unfold paramOf; rw [this]
+    exact Covered.enum a ty hty het hder hred name i hne hname hfind hset [] [] (Seps.blanks [] (by simp)) (Seps.blanks [] (by simp))
+  | aggr ety hty hder hred es hes =>
+    have : writeAttr env.ops cfg env.dict a (.aggr es : MVal F) = aggrTextG (es.map (elemOf env.ops cfg env.dict ety)) [] := by
+      simp only [writeAttr, hty]
+      rw [C01_aggregate_written_elementwise env.ops cfg env.dict ety es (Or.inl hsa), aggrTextG_plain]
+    unfold paramOf; rw [this]
+    have hc := Covered.aggr (env := env) a ety hty hder hred (es.map (elemOf env.ops cfg env.dict ety)) []
+      (by intro e he; obtain ⟨x, hx, rfl⟩ := List.mem_map.mp he; exact storableElem_covered env cfg env.dict ety x (hes x hx))
+      (Seps.blanks [] (by simp)) [] [] (Seps.blanks [] (by simp)) (Seps.blanks [] (by simp))
+    have hv : (es.map (elemOf env.ops cfg env.dict ety)).map (·.v) = es := by simp [List.map_map, Function.comp_def, elemOf]
+    rw [hv] at hc
+    exact hc
+  | selTyped n hty hder hred sd hsd m hmem hne hfind hkw av tok hleaf =>
+    obtain ⟨n0, ns, hnb, hn0, hns, hback⟩ := keyword_bytes hkw
+    obtain ⟨hw, hlc⟩ := storableLeaf_spec env m av tok hleaf
+    have hmt : memberTy env.dict (.select n) m.name = m.ty := by simp [memberTy, hsd, hmem]
+    have : writeAttr env.ops cfg env.dict a (.one (.sel m.name av) : MVal F) = selText n0 ns [] tok [] := by
+      simp only [writeAttr, hty, writeElemAttr, writeSelect, hmt]
+      cases hmty : m.ty <;> simp_all [ElemTy.isEntity, selText]
+    unfold paramOf; rw [this]
+    exact Covered.selTyped a n hty hder hred sd hsd m n0 ns hn0 hns (by rw [hback]; exact hfind) tok av hlc [] [] (by simp) (by simp)
+      [] [] (Seps.blanks [] (by simp)) (Seps.blanks [] (by simp))
+  | selRef n hty hder hred sd hsd m hmem tg hent id h0 hhi hasg =>
+    obtain ⟨ds, hds, hne, hdig, hval⟩ := showInt_nonneg id h0
+    have hmt : memberTy env.dict (.select n) m.name = m.ty := by simp [memberTy, hsd, hmem]
+    have : writeAttr env.ops cfg env.dict a (.one (.sel m.name (.ref id)) : MVal F) = 35 :: ds := by
+      simp [writeAttr, hty, writeElemAttr, writeSelect, hmt, hent, writeAtomCore, hds]
+    unfold paramOf; rw [this]
+    have hc := Covered.selRef (env := env) a n hty hder hred sd hsd m ds hne hdig (by rw [hval]; exact hhi) (by rw [hval]; exact hasg)
+      [] [] (Seps.blanks [] (by simp)) (Seps.blanks [] (by simp))
+    rw [hval] at hc
+    exact hc
   | ref tg hty hder hred id h0 hhi hfound =>
     obtain ⟨ds, hds, hne, hdig, hval⟩ := showInt_nonneg id h0
-    have : writeAttr ops cfg d a (.one (.atom (.ref id)) : MVal F) = 35 :: ds := by
+    have : writeAttr env.ops cfg env.dict a (.one (.atom (.ref id)) : MVal F) = 35 :: ds := by
       simp [writeAttr, hty, writeElemAttr, writeAtomCore, hds]
     unfold paramOf; rw [this]
     have hc := Covered.ref (env := env) a tg hty hder hred ds hne hdig (by rw [hval]; exact hhi) (by rw [hval]; exact hfound)
@@ -528,12 +756,12 @@ def paramsOf {F} (ops : FloatOps F) (cfg : RWCfg) (d : Dict) : List AttrD → Li
 theorem storable_red {F} {env : Env F} {a : AttrD} {v : MVal F} (h : Storable env a v) : a.redefining = false := by
   cases h <;> assumption
 
-theorem paramsOf_spec {F} (env : Env F) (ops : FloatOps F) (cfg : RWCfg) (d : Dict) (as : List AttrD) (vs : List (MVal F))
-    (h : StorableRec env as vs) :
-    paramsOf ops cfg d as vs ≠ [] ∧ (paramsOf ops cfg d as vs).map (·.a) = as ∧ (paramsOf ops cfg d as vs).map (·.v) = vs ∧
-    (∀ p ∈ paramsOf ops cfg d as vs, Covered env p) ∧
-    (∀ i, writeAttrsSimple ops cfg d (i + 1) as vs ++ [41] = 44 :: renderParams (paramsOf ops cfg d as vs)) ∧
-    writeAttrsSimple ops cfg d 0 as vs ++ [41] = renderParams (paramsOf ops cfg d as vs) := by
+theorem paramsOf_spec {F} (env : Env F) (cfg : RWCfg) (hsa : cfg.stringNodeAppends = false) (d : Dict) (hd : d = env.dict)
+    (as : List AttrD) (vs : List (MVal F)) (h : StorableRec env as vs) :
+    paramsOf env.ops cfg d as vs ≠ [] ∧ (paramsOf env.ops cfg d as vs).map (·.a) = as ∧ (paramsOf env.ops cfg d as vs).map (·.v) = vs ∧
+    (∀ p ∈ paramsOf env.ops cfg d as vs, Covered env p) ∧
+    (∀ i, writeAttrsSimple env.ops cfg d (i + 1) as vs ++ [41] = 44 :: renderParams (paramsOf env.ops cfg d as vs)) ∧
+    writeAttrsSimple env.ops cfg d 0 as vs ++ [41] = renderParams (paramsOf env.ops cfg d as vs) := by
   induction h with
   | one a v h =>
     have hr := storable_red h
@@ -541,7 +769,7 @@ theorem paramsOf_spec {F} (env : Env F) (ops : FloatOps F) (cfg : RWCfg) (d : Di
     · intro p hp
       simp only [paramsOf, List.mem_cons, List.mem_nil_iff, or_false] at hp
       subst hp
-      exact storable_covered env ops cfg d a v h
+      exact storable_covered env cfg hsa d hd a v h
     · intro i
       simp [writeAttrsSimple, hr, paramsOf, renderParams, paramOf]
     · simp [writeAttrsSimple, hr, paramsOf, renderParams, paramOf]
@@ -552,19 +780,19 @@ theorem paramsOf_spec {F} (env : Env F) (ops : FloatOps F) (cfg : RWCfg) (d : Di
     · intro p hp
       simp only [paramsOf, List.mem_cons] at hp
       rcases hp with rfl | hp
-      · exact storable_covered env ops cfg d a v h
+      · exact storable_covered env cfg hsa d hd a v h
       · exact h4 p hp
     · intro i
-      have hne : ∃ q qs, paramsOf ops cfg d as vs = q :: qs := by
-        cases hq : paramsOf ops cfg d as vs with
+      have hne : ∃ q qs, paramsOf env.ops cfg d as vs = q :: qs := by
+        cases hq : paramsOf env.ops cfg d as vs with
         | nil => exact absurd hq h1
         | cons q qs => exact ⟨q, qs, rfl⟩
       obtain ⟨q, qs, hq⟩ := hne
       have := h5 (i + 1)
       simp only [writeAttrsSimple, hr, Bool.false_eq_true, if_false, paramsOf, hq, renderParams, paramOf] at this ⊢
       simp [List.append_assoc, this, hq]
-    · have hne : ∃ q qs, paramsOf ops cfg d as vs = q :: qs := by
-        cases hq : paramsOf ops cfg d as vs with
+    · have hne : ∃ q qs, paramsOf env.ops cfg d as vs = q :: qs := by
+        cases hq : paramsOf env.ops cfg d as vs with
         | nil => exact absurd hq h1
         | cons q qs => exact ⟨q, qs, rfl⟩
       obtain ⟨q, qs, hq⟩ := hne
@@ -577,10 +805,10 @@ theorem paramsOf_spec {F} (env : Env F) (ops : FloatOps F) (cfg : RWCfg) (d : Di
     list of a record is read back by `SDAI_Application_instance::STEPread` to exactly the stored values with severity
     NULL, wherever the record stands in a file; hence writing again reproduces the same bytes. -/
 theorem C01_record_write_read_partial {F} (env : Env F) (strict : Bool) (hcfg : env.lex.criSkipsComments = true)
-    (hagg : env.cfg.aggrSkipsComments = true) (cfg : RWCfg) (as : List AttrD) (vs : List (MVal F)) (h : StorableRec env as vs) (l : List Byte) (sk : Bool) (rest : List Byte) :
+    (hagg : env.cfg.aggrSkipsComments = true) (cfg : RWCfg) (hsa : cfg.stringNodeAppends = false) (as : List AttrD) (vs : List (MVal F)) (h : StorableRec env as vs) (l : List Byte) (sk : Bool) (rest : List Byte) :
     ∃ s', instSTEPread env strict as
         (G l (40 :: (writeAttrsSimple env.ops cfg env.dict 0 as vs ++ 41 :: rest)) sk) = .ok ⟨.null, vs, s'⟩ := by
-  obtain ⟨hne, hma, hmv, hcov, _, h0⟩ := paramsOf_spec env env.ops cfg env.dict as vs h
+  obtain ⟨hne, hma, hmv, hcov, _, h0⟩ := paramsOf_spec env cfg hsa env.dict rfl as vs h
   obtain ⟨sk', hr⟩ := C01_read_record_partial env strict hcfg hagg (paramsOf env.ops cfg env.dict as vs) hne hcov l sk rest
   rw [hma, hmv] at hr
   have e : writeAttrsSimple env.ops cfg env.dict 0 as vs ++ 41 :: rest =
@@ -669,11 +897,6 @@ theorem C01_source_skip_instance_skips_comments : Generated.rwCfg.skipInstanceSk
 
 /-! ### write ∘ read at file level -/
 
-/-- an entity keyword as the writer emits it: upper-case letters, digits and `_`, starting with a letter -/
-def KeywordName (n : String) : Prop :=
-  ∃ n0 ns, stringToBytes n = n0 :: ns ∧ isUpper n0 = true ∧ ns.all (fun c => isUpper c || isDigit c || c == 95) = true ∧
-    bytesToString (n0 :: ns) = n
-
 /-- an instance of the fragment as it sits in memory: internal mapping, a file id within `int`, a non-abstract entity
     with at least one attribute, every value `Storable` -/
 def StorableInst {F} (env : Env F) (i : MInst F) : Prop :=
@@ -689,24 +912,17 @@ def recOf {F} (ops : FloatOps F) (cfg : RWCfg) (d : Dict) (i : MInst F) : Rec F 
        ps := paramsOf ops cfg d (match d.entity? p.name with | some e => e.attrs | none => []) p.vals, s4 := [] }, [10])
   | [] => ({ ds := [], s1 := [], s2 := [], n0 := 0, ns := [], s3 := [], ps := [], s4 := [] }, [])
 
-theorem upper_keeps {c : Byte} (h : (isUpper c || isDigit c || c == 95) = true) : toUpper c = c := by
-  have : isLower c = false := by simp [isUpper, isDigit, isLower] at *; bomega
-  simp [toUpper, this]
-
-theorem upper_kwc {c : Byte} (h : (isUpper c || isDigit c || c == 95) = true) : kwc c = true := by
-  simp [kwc, isAlnum, isAlpha, isUpper, isLower, isDigit] at *; bomega
-
-theorem recOf_spec {F} (env : Env F) (ops : FloatOps F) (cfg : RWCfg) (i : MInst F) (h : StorableInst env i) :
-    (recOf ops cfg env.dict i).1.Lex ∧ Seps (recOf ops cfg env.dict i).2 ∧ (recOf ops cfg env.dict i).1.id = i.id ∧
-    (∃ p e, i.parts = [p] ∧ (recOf ops cfg env.dict i).1.name = p.name ∧ env.dict.entity? p.name = some e ∧ e.abstract = false ∧
-      e.attrs = (recOf ops cfg env.dict i).1.ps.map (·.a) ∧ (recOf ops cfg env.dict i).1.ps.map (·.v) = p.vals ∧
-      ∀ q ∈ (recOf ops cfg env.dict i).1.ps, Covered env q) ∧
-    ∀ K, 35 :: (recOf ops cfg env.dict i).1.text ((recOf ops cfg env.dict i).2 ++ K) = writeInst ops cfg env.dict i ++ K := by
+theorem recOf_spec {F} (env : Env F) (cfg : RWCfg) (hsa : cfg.stringNodeAppends = false) (i : MInst F) (h : StorableInst env i) :
+    (recOf env.ops cfg env.dict i).1.Lex ∧ Seps (recOf env.ops cfg env.dict i).2 ∧ (recOf env.ops cfg env.dict i).1.id = i.id ∧
+    (∃ p e, i.parts = [p] ∧ (recOf env.ops cfg env.dict i).1.name = p.name ∧ env.dict.entity? p.name = some e ∧ e.abstract = false ∧
+      e.attrs = (recOf env.ops cfg env.dict i).1.ps.map (·.a) ∧ (recOf env.ops cfg env.dict i).1.ps.map (·.v) = p.vals ∧
+      ∀ q ∈ (recOf env.ops cfg env.dict i).1.ps, Covered env q) ∧
+    ∀ K, 35 :: (recOf env.ops cfg env.dict i).1.text ((recOf env.ops cfg env.dict i).2 ++ K) = writeInst env.ops cfg env.dict i ++ K := by
   obtain ⟨h0, hhi, hcx, p, e, hparts, hent, habs, ⟨n0, ns, hnb, hn0, hns, hback⟩, hrec⟩ := h
   obtain ⟨ds, hds, hne, hdig, hval⟩ := showInt_nonneg i.id h0
-  obtain ⟨hp1, hpa, hpv, hpc, _, hp0⟩ := paramsOf_spec env ops cfg env.dict e.attrs p.vals hrec
-  have hrec' : recOf ops cfg env.dict i =
-      ({ ds := ds, s1 := [], s2 := [], n0 := n0, ns := ns, s3 := [], ps := paramsOf ops cfg env.dict e.attrs p.vals, s4 := [] }, [10]) := by
+  obtain ⟨hp1, hpa, hpv, hpc, _, hp0⟩ := paramsOf_spec env cfg hsa env.dict rfl e.attrs p.vals hrec
+  have hrec' : recOf env.ops cfg env.dict i =
+      ({ ds := ds, s1 := [], s2 := [], n0 := n0, ns := ns, s3 := [], ps := paramsOf env.ops cfg env.dict e.attrs p.vals, s4 := [] }, [10]) := by
     simp [recOf, hparts, hent, hnb, hds]
   rw [hrec']
   refine ⟨⟨hne, hdig, by show ((digitsVal ds 0 : Nat) : Int) ≤ _; rw [hval]; exact hhi, Seps.blanks [] (by simp),
@@ -724,25 +940,25 @@ theorem recOf_spec {F} (env : Env F) (ops : FloatOps F) (cfg : RWCfg) (i : MInst
       · exact upper_keeps (List.all_eq_true.mp hns c hc)
     rw [this, hback]
   · intro K
-    have hw : writeInst ops cfg env.dict i = 35 :: (ds ++ 61 :: (n0 :: (ns ++ 40 ::
-        (writeAttrsSimple ops cfg env.dict 0 e.attrs p.vals ++ [41, 59, 10])))) := by
+    have hw : writeInst env.ops cfg env.dict i = 35 :: (ds ++ 61 :: (n0 :: (ns ++ 40 ::
+        (writeAttrsSimple env.ops cfg env.dict 0 e.attrs p.vals ++ [41, 59, 10])))) := by
       have e3 : stringToBytes ");\n" = [41, 59, 10] := by decide
       simp [writeInst, hcx, hparts, hent, hnb, hds, e3]
     rw [hw]
-    have hp0' : renderParams (paramsOf ops cfg env.dict e.attrs p.vals) = writeAttrsSimple ops cfg env.dict 0 e.attrs p.vals ++ [41] := hp0.symm
+    have hp0' : renderParams (paramsOf env.ops cfg env.dict e.attrs p.vals) = writeAttrsSimple env.ops cfg env.dict 0 e.attrs p.vals ++ [41] := hp0.symm
     simp [Rec.text, Rec.t1, Rec.t2, Rec.t3, Rec.t4, hp0']
 
-theorem renderRecs_write {F} (env : Env F) (ops : FloatOps F) (cfg : RWCfg) (is : List (MInst F))
+theorem renderRecs_write {F} (env : Env F) (cfg : RWCfg) (hsa : cfg.stringNodeAppends = false) (is : List (MInst F))
     (h : ∀ i ∈ is, StorableInst env i) (fin : List Byte) :
-    renderRecs (is.map (recOf ops cfg env.dict)) fin = is.flatMap (writeInst ops cfg env.dict) ++ fin := by
+    renderRecs (is.map (recOf env.ops cfg env.dict)) fin = is.flatMap (writeInst env.ops cfg env.dict) ++ fin := by
   induction is with
   | nil => rfl
   | cons i t ih =>
-    obtain ⟨_, _, _, _, hw⟩ := recOf_spec env ops cfg i (h i (by simp))
-    have := hw (renderRecs (t.map (recOf ops cfg env.dict)) fin)
+    obtain ⟨_, _, _, _, hw⟩ := recOf_spec env cfg hsa i (h i (by simp))
+    have := hw (renderRecs (t.map (recOf env.ops cfg env.dict)) fin)
     simp only [List.map_cons, List.flatMap_cons, List.append_assoc]
     rw [← ih (fun x hx => h x (by simp [hx])), ← this]
-    cases hr : recOf ops cfg env.dict i
+    cases hr : recOf env.ops cfg env.dict i
     rfl
 
 /-- **read ∘ write and write ∘ read ∘ write at file level** (`_partial`: instances of `StorableInst` — internal mapping,
@@ -754,7 +970,7 @@ theorem renderRecs_write {F} (env : Env F) (ops : FloatOps F) (cfg : RWCfg) (is 
     value identical, every instance complete — and writing what was read gives the same bytes again. -/
 theorem C01_file_write_read_partial {F} (ops : FloatOps F) (lex : LexCfg) (cfg : RWCfg) (d : Dict) (strict : Bool)
     (hskip : cfg.skipInstanceSkipsComments = true) (hcri : lex.criSkipsComments = true) (hagg : cfg.aggrSkipsComments = true)
-    (m : Mgr F) (hnd : (m.insts.map (·.id)).Nodup)
+    (hsa : cfg.stringNodeAppends = false) (m : Mgr F) (hnd : (m.insts.map (·.id)).Nodup)
     (hst : ∀ i ∈ m.insts, StorableInst { ops := ops, lex := lex, cfg := cfg, dict := d, lookup := Mgr.lookup d m } i) :
     ∃ res, readDataSection ops lex cfg d strict false
         (10 :: (m.insts.flatMap (writeInst ops cfg d) ++ (stringToBytes "ENDSEC;\n" ++ (endIso ++ [59, 10])))) = .ok res ∧
@@ -769,7 +985,7 @@ theorem C01_file_write_read_partial {F} (ops : FloatOps F) (lex : LexCfg) (cfg :
         e.attrs = (recOf ops cfg d i).1.ps.map (·.a) ∧ (recOf ops cfg d i).1.ps.map (·.v) = p.vals ∧
         ∀ q ∈ (recOf ops cfg d i).1.ps, Covered env q) ∧
       ∀ K, 35 :: (recOf ops cfg d i).1.text ((recOf ops cfg d i).2 ++ K) = writeInst ops cfg d i ++ K :=
-    fun i hi => recOf_spec env ops cfg i (hst i hi)
+    fun i hi => recOf_spec env cfg hsa i (hst i hi)
   -- the lookup pass 1 builds is the manager's own
   have hkeys : (rs.map (mkInst d)).map keyOf = m.insts.map keyOf := by
     simp only [rs, List.map_map]
@@ -788,7 +1004,7 @@ theorem C01_file_write_read_partial {F} (ops : FloatOps F) (lex : LexCfg) (cfg :
       [10] ++ renderRecs rs (endsec [] ([10] ++ (endIso ++ 59 :: [10]))) := by
     have e1 : stringToBytes "ENDSEC;\n" = [69, 78, 68, 83, 69, 67, 59, 10] := by decide
     have hw : ∀ fin, renderRecs rs fin = m.insts.flatMap (writeInst ops cfg d) ++ fin :=
-      renderRecs_write env ops cfg m.insts hst
+      renderRecs_write env cfg hsa m.insts hst
     rw [hw, e1]
     simp [endsec]
   obtain ⟨res, hr, hinsts, hsev, _, hex, _⟩ := C01_read_file_partial ops lex cfg d strict hskip hcri hagg rs [10] [] [10] [10]
